@@ -10,4 +10,6 @@ let dispatch fnum z nat entry (is : int list) (xs : Obj.t list) : Obj.t list res
   | "lcg", [] -> run_lcg fnum xs
   | "fse", [] -> run_fse fnum xs
   | "fse_angle", [] -> run_fse_angle fnum xs
+  | "session", memo :: n :: nb :: codes ->
+      run_session fnum (memo <> 0) (nat n) (nat nb) (List.map nat codes) xs
   | _ -> Err OtherError
